@@ -131,3 +131,62 @@ theorem rightPad_trimRight_spaces (unit : String) (r : Str) (hlen : r.length = 9
   rw [this, ← hk]
 
 end Ach
+
+namespace Ach
+
+/-- the splitter never hands out a line longer than the record width, and never an empty one -/
+theorem stepChar_inv (w : Nat) (hw : 0 < w) (s : SplitSt) (c : Char)
+    (h : s.cur.length < w ∧ ∀ l ∈ s.out, 0 < l.length ∧ l.length ≤ w) :
+    (stepChar w s c).cur.length < w ∧ ∀ l ∈ (stepChar w s c).out, 0 < l.length ∧ l.length ≤ w := by
+  unfold stepChar
+  by_cases hn : isNL c = true
+  · simp only [hn, if_true]
+    by_cases hp : s.cur.length > 0
+    · simp only [hp, if_true]
+      refine ⟨by simpa using hw, ?_⟩
+      intro l hl
+      rcases List.mem_append.1 hl with hl | hl
+      · exact h.2 l hl
+      · simp at hl; subst hl; exact ⟨hp, by omega⟩
+    · simp only [hp, if_false]; exact h
+  · simp only [hn, if_false, Bool.false_eq_true]
+    by_cases hlt : (s.cur ++ [c]).length < w
+    · rw [if_pos hlt]; exact ⟨hlt, h.2⟩
+    · rw [if_neg hlt]
+      refine ⟨by simpa using hw, ?_⟩
+      intro l hl
+      rcases List.mem_append.1 hl with hl | hl
+      · exact h.2 l hl
+      · simp at hl; subst hl
+        simp at hlt ⊢; omega
+
+theorem runChars_inv (w : Nat) (hw : 0 < w) : ∀ (cs : Str) (s : SplitSt),
+    (s.cur.length < w ∧ ∀ l ∈ s.out, 0 < l.length ∧ l.length ≤ w) →
+    (runChars w s cs).cur.length < w ∧ ∀ l ∈ (runChars w s cs).out, 0 < l.length ∧ l.length ≤ w
+  | [], _, h => h
+  | c :: cs, s, h => by
+    have : runChars w s (c :: cs) = runChars w (stepChar w s c) cs := by simp [runChars]
+    rw [this]
+    exact runChars_inv w hw cs _ (stepChar_inv w hw s c h)
+
+/-- **lines_at_most_94**: for every input text, every line the Reader's loop flushes has between 1 and 94 runes —
+so `readLine`'s long-line branch (and `processFixedWidthFile`) is unreachable and padding never overflows -/
+theorem splitLines_width (cs : Str) : ∀ l ∈ splitLines 94 cs, 0 < l.length ∧ l.length ≤ 94 := by
+  unfold splitLines finish
+  have h := runChars_inv 94 (by decide) cs ⟨[], []⟩ ⟨by decide, by simp⟩
+  split
+  · rename_i hp
+    intro l hl
+    rcases List.mem_append.1 hl with hl | hl
+    · exact h.2 l hl
+    · simp at hl; subst hl; exact ⟨hp, by omega⟩
+  · exact h.2
+
+/-- padding a flushed line (rune-measured) always succeeds and gives exactly 94 columns -/
+theorem rightPad_rune_ok (l : Str) (h : l.length ≤ 94) : ∃ p, rightPad "rune" l = some p ∧ p.length = 94 := by
+  unfold rightPad
+  have : ¬ l.length > 94 := by omega
+  simp only [if_true, this, if_false]
+  exact ⟨_, rfl, by simp [spaces]; omega⟩
+
+end Ach
